@@ -778,13 +778,22 @@ def request(job):
     """job: {"n", "codes", "fmt": matrices|strings, "api": prep|readout, "conn"} -> `request` record"""
     lib = L()
     n, codes, api, conn = job["n"], job["codes"], job["api"], job["conn"]
-    rec = {"op": "request", "n": n, "given": codes, "api": api, "conn": conn, "fmt": job["fmt"], "outcome": "raise", "gates": [], "validate": -1, "exc": ""}
+    rec = {"op": "request", "n": n, "given": codes, "api": api, "conn": conn, "fmt": job["fmt"], "outcome": "raise", "gates": [], "validate": -1, "ctorv": -1, "exc": ""}
     try:
         st = stab_from_codes(n, codes, "matrices" if job["fmt"] == "matrices" else "strings-minus")
         try:
             rec["validate"] = 1 if st.validate() else 0
         except Exception as e:
             rec["validate"] = -1
+        # the same validity check through the constructor flag (documented: validate=True asserts validity)
+        try:
+            R, S, ph = impl.matrices_of_codes(codes, n)
+            lib.stabilizer.Stabilizer((R, S, ph), validate=True)
+            rec["ctorv"] = 1
+        except AssertionError:
+            rec["ctorv"] = 0
+        except Exception:
+            rec["ctorv"] = -1
         if api == "prep":
             qc = lib.stabilizer_circuits.get_preparation_circuit(st, conn)
         else:
